@@ -68,7 +68,7 @@ func c04Setup(env *hEnv) error {
 	ctx := context.Background()
 	coll := env.coll("d1.hot")
 	for k := 0; k < 3; k++ {
-		if _, err := coll.InsertOne(ctx, bson.D{{Key: "_id", Value: int32(k)}, {Key: "n", Value: int64(100)}, {Key: "log", Value: bson.A{}}}); err != nil {
+		if _, err := coll.InsertOne(ctx, bson.D{{Key: "_id", Value: int32(k)}, {Key: "n", Value: int64(100)}, {Key: "log", Value: bson.A{}}, {Key: "w", Value: bson.A{bson.D{{Key: "q", Value: int64(0)}}}}}); err != nil {
 			return err
 		}
 	}
@@ -218,11 +218,19 @@ func c04Exec(env *hEnv, c *c04Call, sess lungo.ISession) {
 			}
 			na, _ := getD(a, "n").(int64)
 			nb, _ := getD(b, "n").(int64)
-			// read-then-write: absolute values computed from the reads
-			if _, err := hot.UpdateOne(sc, bson.D{{Key: "_id", Value: int32(c.k)}}, bson.D{{Key: "$set", Value: bson.D{{Key: "n", Value: na - 1}}}, {Key: "$push", Value: bson.D{{Key: "log", Value: c.cid}}}}); err != nil {
+			// read-then-write: absolute values computed from the reads; the
+			// counter inside the array of sub-documents moves with them (a
+			// write into a nested value of the published document would show
+			// to readers before the commit)
+			if _, err := hot.UpdateOne(sc, bson.D{{Key: "_id", Value: int32(c.k)}}, bson.D{{Key: "$set", Value: bson.D{{Key: "n", Value: na - 1}}}, {Key: "$push", Value: bson.D{{Key: "log", Value: c.cid}}}, {Key: "$inc", Value: bson.D{{Key: "w.0.q", Value: int64(1)}}}}); err != nil {
 				return nil, err
 			}
-			if _, err := hot.UpdateOne(sc, bson.D{{Key: "_id", Value: int32(c.k2)}}, bson.D{{Key: "$set", Value: bson.D{{Key: "n", Value: nb + 1}}}, {Key: "$push", Value: bson.D{{Key: "log", Value: c.cid}}}}); err != nil {
+			if c.kind == "transferRj" {
+				// a catalog call in the middle of the transaction (lungo refuses
+				// it there) neither ends nor publishes the transaction
+				_ = env.client.Database("d1").CreateCollection(sc, "made"+c.cid)
+			}
+			if _, err := hot.UpdateOne(sc, bson.D{{Key: "_id", Value: int32(c.k2)}}, bson.D{{Key: "$set", Value: bson.D{{Key: "n", Value: nb + 1}}}, {Key: "$push", Value: bson.D{{Key: "log", Value: c.cid}}}, {Key: "$inc", Value: bson.D{{Key: "w.0.q", Value: int64(1)}}}}); err != nil {
 				return nil, err
 			}
 			// in every serial execution a read that follows the writes
@@ -246,7 +254,7 @@ func c04Exec(env *hEnv, c *c04Call, sess lungo.ISession) {
 				// a call that fails inside the transaction (its projection is
 				// rejected after the write) takes nothing else with it
 				var d bson.D
-				rerr := hot.FindOneAndUpdate(sc, bson.D{{Key: "_id", Value: int32(c.k)}}, bson.D{{Key: "$inc", Value: bson.D{{Key: "n", Value: int64(1000)}}}}, options.FindOneAndUpdate().SetProjection(bson.D{{Key: "n", Value: 1}, {Key: "log", Value: 0}})).Decode(&d)
+				rerr := hot.FindOneAndUpdate(sc, bson.D{{Key: "_id", Value: int32(c.k)}}, bson.D{{Key: "$inc", Value: bson.D{{Key: "n", Value: int64(1000)}, {Key: "w.0.q", Value: int64(1000)}}}}, options.FindOneAndUpdate().SetProjection(bson.D{{Key: "n", Value: 1}, {Key: "log", Value: 0}})).Decode(&d)
 				if rerr == nil {
 					c.rywBad = fmt.Sprintf("transfer %s: a find-and-modify with a mixed projection succeeded", c.cid)
 				}
